@@ -16,6 +16,8 @@
      x/slashing/keeper/rank.go            ResetWholeValidatorRank
      x/slashing/keeper/hooks.go           AfterValidatorCreated / AfterValidatorJoined
      x/evidence/keeper/infraction.go      HandleEquivocationEvidence
+     x/recovery/keeper/msg_server.go      RotateRecoveryAddress (its staking part: RemoveValidator / AddValidator)
+     x/staking/genesis.go, module.go      ExportGenesis / InitGenesis;  x/slashing/genesis.go
    and CometBFT v0.37.2 types/validator_set.go updateWithChangeSet (as [apply_updates]).
 
    Keys: validator addresses and consensus keys are small integers chosen by the harness so that
@@ -161,7 +163,9 @@ Inductive op :=
 | OReset                                  (* passed rank-reset proposal: handler Apply *)
 | OUpPause (vs : list Z)                  (* upgrade plan: PauseProposalNotApprovedValidators, vs = non-approving voters *)
 | ONewBlock (dt : Z)                      (* next block: height + 1, time + dt *)
-| OEndBlock.                              (* staking EndBlocker *)
+| OEndBlock                               (* staking EndBlocker *)
+| ORotate (v v' : Z)                      (* recovery MsgRotateRecoveryAddress (accepted): validator record moves to address v' *)
+| OGenesis.                               (* staking + slashing ExportGenesis, then InitGenesis into an empty store (InitChain) *)
 
 Inductive res := ROk | RRej | RPanic.
 Definition res_eqb (a b : res) : bool :=
@@ -272,6 +276,26 @@ Definition end_block (s : state) : state * res * list (Z * Z) :=
     end
   end.
 
+(* --- export + import: only the validator records (staking) and the signing infos (slashing) survive;
+   InitGenesis returns power 1 for every ACTIVE record and that list IS the new consensus set;
+   the SDK module manager panics when it is empty *)
+Definition genesis_updates (s : state) : list (Z * Z) :=
+  map (fun e : Z * vrec => (v_cons (snd e), 1)) (filter (fun e : Z * vrec => is_active (v_status (snd e))) (st_vals s)).
+Definition genesis_import (s : state) : state * res :=
+  let ups := genesis_updates s in
+  let base := mkSt (st_vals s) [] [] []
+                   (fold_left (fun a (e : Z * vrec) => upd (v_cons (snd e)) (fst e) a) (st_vals s) [])
+                   (st_si s) []
+                   (fold_left (fun a (e : Z * vrec) => sadd (v_cons (snd e)) a) (st_vals s) [])
+                   (st_time s) (st_height s) [] (st_halt s) in
+  match ups with
+  | [] => (set_cons s [] true, RPanic)            (* InitChain panics: there is no new chain *)
+  | _ => match apply_updates [] ups with
+         | Some c => (set_cons base c (st_halt s), ROk)
+         | None => (set_cons base [] true, ROk)
+         end
+  end.
+
 (* ---------------------------------------------------------------- the step function *)
 Definition step (cfg : config) (s : state) (o : op) : state * res :=
   match o with
@@ -322,6 +346,15 @@ Definition step (cfg : config) (s : state) (o : op) : state * res :=
   | OUpPause vs => (fold_left sk_pause vs s, ROk)
   | ONewBlock dt => (set_clock s (st_time s + dt) (st_height s + 1), ROk)
   | OEndBlock => let '(s', r, _) := end_block s in (s', r)
+  | ORotate v v' =>
+      match lookup v (st_vals s) with
+      | None => (s, ROk)
+      | Some r => (* RemoveValidator (record and index entry), then AddValidator under the new address;
+                     queues, jail info are keyed by the old address and are left alone *)
+          (mkSt (upd v' r (del v (st_vals s))) (st_pend s) (st_rm s) (st_re s) (upd (v_cons r) v' (del (v_cons r) (st_cidx s)))
+                (st_si s) (st_jail s) (st_pk s) (st_time s) (st_height s) (st_cset s) (st_halt s), ROk)
+      end
+  | OGenesis => genesis_import s
   end.
 
 Definition run (cfg : config) (s : state) (ops : list op) : state := fold_left (fun a o => fst (step cfg a o)) ops s.
